@@ -174,11 +174,11 @@ def _verify_schema(pid, label, src, dialect="default"):
                     pt = g1.Point(())
                     object.__setattr__(pt, "exc_details", False)
                     res = g1.verify_from_dict(cls, fn, dict(rec.globals), pt, view_factory=g4.make_dec_view(cls, dialect), inline=table)
-                    obs.append(g4._ob(oid, res, rec, "REF_DEC", cls))
+                    obs.append(g4._ob(oid, res, rec, "REF_DEC", cls, dialect, src))
                 else:
                     res = g2.verify_to_dict(cls, fn, dict(rec.globals), g2.PPoint(()), ("cfgd", "cfg"), frozenset(),
                                             view_factory=g4.make_enc_view(cls, dialect), inline=table)
-                    obs.append(g4._ob(oid, res, rec, "REF_ENC", cls))
+                    obs.append(g4._ob(oid, res, rec, "REF_ENC", cls, dialect, src))
             except (pysym.NotInSubset, g4.ref.Unsupported) as e:
                 obs.append(dict(id=oid, status="undecided", detail=f"outside the verified subset: {e}", unit=rec.text[:600]))
         return {"obligations": obs}
